@@ -2139,6 +2139,31 @@ def _c09_one(seed):
             if a != b:
                 return "%s with the date omitted at %s: %s, with today's date in the zone: %s" % (
                     fn.__name__, now.isoformat(), a, b)
+    # … at several clock readings of one UTC day, one after the other in this process: the
+    # zone's own midnight falls between two of them
+    for hh in (0, 5, 9, 13, 17, 21, 23):
+        now2 = datetime.datetime(d.year, d.month, d.day, hh, 30, tzinfo=datetime.timezone.utc)
+        with corr_norm.FrozenClock(now2):
+            for fn in (sun.noon, sun.sunset):
+                a = _try(lambda: fn(o, tzinfo=tz))
+                b = _try(lambda: fn(o, now2.astimezone(tz).date(), tzinfo=tz))
+                if a != b:
+                    return ("%s with the date omitted at clock reading %s (after earlier readings of the same "
+                            "UTC day): %s, with today's date in the zone (%s): %s" % (
+                                fn.__name__, now2.isoformat(), a, now2.astimezone(tz).date(), b))
+    # numeric strings in every spelling float() accepts denote the same angle as the float
+    for _ in range(12):
+        v = rng.choice([rng.uniform(-90, 90), rng.uniform(-1e-3, 1e-3), rng.uniform(-9, 9), 5e-05, 51.4733])
+        for sp in (repr(v), "%e" % v, "%g" % v, "%010.5f" % v, "%+.4f" % v, " %r " % v, "%.3E" % v):
+            try:
+                want = float(sp)
+            except ValueError:
+                continue
+            want_lat = max(-90.0, min(90.0, want))
+            got = _try(lambda: Observer(sp, 0.0).latitude)
+            if got != ("ok", want_lat):
+                return "latitude given as the numeric string %r becomes %r, as the float %r it is %r" % (
+                    sp, got, want, want_lat)
     lat_s, lon_s = "51°30'N", "0°7'30\"W"
     o1, o2, o3 = Observer(lat_s, lon_s), Observer(51.5, -0.125), Observer("51.5", "-0.125")
     if not (o1 == o2 == o3):
